@@ -27,6 +27,9 @@ func c12Scenarios(tier string) []*hist.Scenario {
 		if th == 1 {
 			snap = "/snap1-1"
 		}
+		if th == 2 {
+			snap = "/snap2-2"
+		}
 		out = append(out, &hist.Scenario{
 			Name: fmt.Sprintf("c12/%s%s/%s/N%dL%dK%dY%dD%d", tag, snap, strings.Join(al, "+"), n, late, k, y, d),
 			N:    n, Late: late, Init: []string{"init.o"}, Alphabet: al, K: k, Y: y, D: d, Deact: true,
@@ -49,6 +52,13 @@ func c12Scenarios(tier string) []*hist.Scenario {
 	each(presOps[:1], 2, 0, 1, 2, 2)
 	each([]string{"p.set1", "p.clear", "p.set1+o.set1"}, 2, 1, 1, 2, 1)
 	each(presOps[1:], 2, 0, 1, 2, 2)
+	// threshold 2: the late attacher is fed by a snapshot, what follows reaches
+	// it as changes (with threshold 1 every pull is a snapshot)
+	for _, noPres := range []bool{false, true} {
+		for _, op := range []string{"p.set1", "p.clear", "p.set1+o.set1"} {
+			mk(noPres, 2, []string{op}, 2, 1, 1, 2, 1)
+		}
+	}
 	each(presOps[:2], 2, 1, 2, 2, 1)
 	each(presOps[:1], 2, 0, 2, 2, 2)
 	if tier == "quick" {
